@@ -22,6 +22,10 @@ func rep(c byte, n int) []byte { return bytes.Repeat([]byte{c}, n) }
 var r *ev.Run
 
 func fourWays(part *ev.Part, s pb.Snap, sizeHint int, label string, classes map[string]bool) {
+	r.Guard(part.Name, "panic-in-codec", map[string]any{"label": label, "sizeHint": sizeHint}, func() { fourWays1(part, s, sizeHint, label, classes) })
+}
+
+func fourWays1(part *ev.Part, s pb.Snap, sizeHint int, label string, classes map[string]bool) {
 	want := s.String()
 	part.Executions++
 	repl := map[string]any{"content": trunc(want), "sizeHint": sizeHint, "label": label}
@@ -87,6 +91,7 @@ func trunc(s string) string {
 func main() {
 	flag.Parse()
 	r = ev.Start("C07")
+	defer r.RecoverMain()
 	defer world.Cleanup()
 	r.Assume("generated gogosnapshot codec is the protobuf reference for the published schema",
 		"deprecated group wire types (3/4) cannot be produced for this proto3 schema: out of scope",
@@ -212,7 +217,11 @@ func main() {
 		{FV: 1, DBIs: []pb.DBI{{Name: "only", Entries: []pb.KV{{Key: []byte("k"), Val: rep('v', 130)}}}}},
 		{FV: 3, CV: 3, Meta: pb.Meta{InstanceID: "i"}, DBIs: []pb.DBI{{Name: "empty", Flags: 1 << 32}, {Name: "e2", Transform: "dupsort_hack_v1", Entries: []pb.KV{{Key: []byte("k"), Val: []byte("v"), TS: 1, Flags: 1<<32 - 1}}}}},
 	}
+	var decodeBoth1 func(label string, data []byte, replay any)
 	decodeBoth := func(label string, data []byte, replay any) {
+		r.Guard(pc.Name, "panic-in-decoder", replay, func() { decodeBoth1(label, data, replay) })
+	}
+	decodeBoth1 = func(label string, data []byte, replay any) {
 		pc.Executions++
 		pc.Transitions += 2
 		want, rerr := pb.DecodeRef(data)
